@@ -58,7 +58,7 @@ class C05(Prop):
         "(existing subtree, leaf, absent, last subtree); the SAME plan is walked under every combination of {v1 getnext/fetch, v2c getnext/getbulk/fetch, "
         "v3 getnext/getbulk} x {sync, async} with random max_repetitions 1..50 and agent cap 1..50, RFC-correct reference agent; every walk must equal "
         "the model slice (and hence each other). separate benign-fault family: duplicates/delays/stale replies must not change the list, a "
-        "lost datagram may only turn a suffix into TimeoutError. non-trivial = the subtree is non-empty or ends in endOfMibView/noSuchName; "
+        "lost datagram may only turn a suffix into TimeoutError. also subtrees under 0.x / 1.x / 2.x (rows at 2.40 and beyond follow 2.39.*), kilobyte values (the agent shortens GetBulk responses to a size budget), a second iterator interleaved on the same session. non-trivial = the subtree is non-empty or ends in endOfMibView/noSuchName; "
         "distinct = hash of (MIB shape, base kind, repetitions, cap) plus abstract trace"
     )
     quick_runs = 5000
